@@ -449,7 +449,14 @@ def run_check(prop_id: str, body, argv=None):
         if ctx.model:
             ctx.model.close()
     print(f"[{prop_id}] {status}; evaluations={ctx.evaluations} wall={time.time()-ctx.t0:.1f}s")
-    sys.exit(code)
+    # executors a broken library left behind keep non-daemon threads alive: leave without waiting for them
+    sys.stdout.flush()
+    sys.stderr.flush()
+    try:
+        kill_descendants()
+    except Exception:  # noqa
+        pass
+    os._exit(code)
 
 
 # --------------------------------------------------------------------------------------------
